@@ -21,7 +21,11 @@ inductive Val
   | dict (id : Nat)
   | fn (n : String) | cont (k : Nat) | obj (k : Nat)
   | slice (lo hi : Val)
-  | setv | code | lam
+  | slice3 (lo hi st : Val)
+  | setv
+  | code (name : String) (sg : Sig) (body : Expr)
+  /-- a Python function object: name, parameters, default values, body -/
+  | lam (name : String) (sg : Sig) (ds : List Val) (kds : List (String × Val)) (body : Expr)
 deriving Inhabited
 
 /-- world of the concrete runs -/
@@ -30,6 +34,7 @@ structure CW where
   vars : List (String × Val) := []
   heap : List (List (String × Val)) := []       -- dict objects (id = index from the end)
   bad : Nat := 0                                -- `ev(i, _)` raises ValueError when i = bad
+  frames : List (List (String × Val)) := []     -- locals of the running function calls, innermost first
 
 abbrev CM := M String CW
 
@@ -57,9 +62,11 @@ partial def showV (w : CW) : Val → String
   | .cont k => "<C" ++ toString k ++ ">"
   | .obj k => "<O" ++ toString k ++ ">"
   | .slice lo hi => "slice(" ++ showV w lo ++ "," ++ showV w hi ++ ")"
+  | .slice3 lo hi .none => "slice(" ++ showV w lo ++ "," ++ showV w hi ++ ")"     -- as harness/c01.go prints it
+  | .slice3 lo hi st => "slice(" ++ showV w lo ++ "," ++ showV w hi ++ "," ++ showV w st ++ ")"
   | .setv => "<set>"
-  | .code => "<code>"
-  | .lam => "<fn <lambda>>"
+  | .code _ _ _ => "<code>"
+  | .lam n _ _ _ _ => "<fn " ++ n ++ ">"
 
 def ok {α} (a : α) : CM α := fun w => .ok a w
 def raise {α} (x : String) : CM α := fun w => .err x w
@@ -93,8 +100,9 @@ partial def valEq : Val → Val → Option Bool
   | .dict _, _ => none | _, .dict _ => none
   | .setv, _ => none | _, .setv => none
   | .slice _ _, _ => none | _, .slice _ _ => none
-  | .lam, _ => none | _, .lam => none
-  | .code, _ => none | _, .code => none
+  | .slice3 _ _ _, _ => none | _, .slice3 _ _ _ => none
+  | .lam _ _ _ _ _, _ => none | _, .lam _ _ _ _ _ => none
+  | .code _ _ _, _ => none | _, .code _ _ _ => none
   | _, _ => some false
 where
   listEq : List Val → List Val → Option Bool
@@ -230,9 +238,47 @@ def sliceList {α} (l : List α) (lo hi : Val) : Option (List α) :=
                       else some ((l.drop a.toNat).take (b - a).toNat)
   | _, _ => none
 
+/-- PySlice_GetIndicesEx + the index walk: `some (some idxs)`, `some none` = ValueError (step 0),
+`none` = TypeError (a bound that is neither None nor an int) -/
+def slice3Idx (n : Nat) (lo hi st : Val) : Option (Option (List Nat)) :=
+  let asInt : Val → Option (Option Int)
+    | .none => some none | .int i => some (some i) | _ => none
+  -- PySlice_GetIndicesEx looks at the step first (TypeError, then "slice step cannot be zero"),
+  -- then at start and stop
+  match asInt st with
+  | none => none
+  | some st =>
+  let step := st.getD 1
+  if step == 0 then some none else
+  match asInt lo, asInt hi with
+  | some lo, some hi =>
+    let n' : Int := n
+    let clamp (i : Int) : Int :=
+      let i := if i < 0 then i + n' else i
+      if i < 0 then (if step < 0 then -1 else 0) else if i ≥ n' then (if step < 0 then n' - 1 else n') else i
+    let start := match lo with | none => if step < 0 then n' - 1 else 0 | some i => clamp i
+    let stop := match hi with | none => if step < 0 then -1 else n' | some i => clamp i
+    let cnt : Nat :=
+      if step > 0 then (if start < stop then ((stop - start - 1) / step + 1).toNat else 0)
+      else (if stop < start then ((start - stop - 1) / (-step) + 1).toNat else 0)
+    some (some ((List.range cnt).map fun (k : Nat) => (start + Int.ofNat k * step).toNat))
+  | _, _ => none
+
+def hasBool3 (a b c : Val) : Bool := isBoolV a || isBoolV b || isBoolV c
+
+def slice3Of {α} (l : List α) (dflt : α) (lo hi st : Val) (mk : List α → Val) : CM Val :=
+  if hasBool3 lo hi st then unspec else
+  match slice3Idx l.length lo hi st with
+  | none => raise "TypeError"
+  | some none => raise "ValueError"
+  | some (some idxs) => ok (mk (idxs.map fun i => l.getD i dflt))
+
 def pyGetItem (c k : Val) : CM Val :=
   match c, k with
   | .cont n, k => M.bind (logEv (.tuple [.str "gi", .int n, k])) fun _ => ok (.int (100 * n))
+  | .tuple vs, .slice3 lo hi st => slice3Of vs .none lo hi st .tuple
+  | .list vs, .slice3 lo hi st => slice3Of vs .none lo hi st .list
+  | .str s, .slice3 lo hi st => slice3Of s.toList 'x' lo hi st (fun cs => .str (String.ofList cs))
   | .tuple vs, .int i => match normIdx i vs.length with
     | some j => ok (vs.getD j .none) | none => raise "IndexError"
   | .list vs, .int i => match normIdx i vs.length with
@@ -248,38 +294,160 @@ def pyGetItem (c k : Val) : CM Val :=
   | .dict id, .str k => fun w => match (w.dictGet id).lookup k with
     | some v => .ok v w | none => .err "KeyError" w
   | .dict _, _ => unspec
-  | .setv, _ => unspec | .fn _, _ => unspec | .lam, _ => unspec | .code, _ => unspec
+  | .setv, _ => unspec | .fn _, _ => unspec | .lam _ _ _ _ _, _ => unspec | .code _ _ _, _ => unspec
   | _, _ => raise "TypeError"
+
+def pyDelItem (c k : Val) : CM Unit :=
+  match c with
+  | .cont n => logEv (.tuple [.str "di", .int n, k])
+  | .list _ => unspec | .dict _ => unspec           -- in-place mutation of builtin containers: not modelled
+  | .setv => unspec | .fn _ => unspec | .lam _ _ _ _ _ => unspec | .code _ _ _ => unspec | .obj _ => unspec
+  | _ => raise "TypeError"
+
+def pyDelAttr (o : Val) (n : String) : CM Unit :=
+  match o with
+  | .obj k => logEv (.tuple [.str "da", .int k, .str n])
+  | .cont _ => unspec | .fn _ => unspec | .lam _ _ _ _ _ => unspec | .code _ _ _ => unspec | .dict _ => unspec
+  | _ => raise "AttributeError"
 
 def pySetItem (c k v : Val) : CM Unit :=
   match c with
   | .cont n => logEv (.tuple [.str "si", .int n, k, v])
   | .list _ => unspec | .dict _ => unspec
-  | .setv => unspec | .fn _ => unspec | .lam => unspec | .code => unspec
+  | .setv => unspec | .fn _ => unspec | .lam _ _ _ _ _ => unspec | .code _ _ _ => unspec
   | _ => raise "TypeError"
 
 def pyGetAttr (o : Val) (n : String) : CM Val :=
   match o with
   | .obj k => M.bind (logEv (.tuple [.str "ga", .int k, .str n])) fun _ => ok (.int (1000 * k + n.length))
-  | .fn _ => unspec | .lam => unspec | .code => unspec | .slice _ _ => unspec
+  | .fn _ => unspec | .lam _ _ _ _ _ => unspec | .code _ _ _ => unspec | .slice _ _ => unspec
+  | .slice3 _ _ _ => unspec
   | .dict _ => unspec                      -- C16 territory: gpython lets attributes be set on a dict
   | _ => raise "AttributeError"
 
 def pySetAttr (o : Val) (n : String) (v : Val) : CM Unit :=
   match o with
   | .obj k => logEv (.tuple [.str "sa", .int k, .str n, v])
-  | .cont _ => unspec | .fn _ => unspec | .lam => unspec | .code => unspec
+  | .cont _ => unspec | .fn _ => unspec | .lam _ _ _ _ _ => unspec | .code _ _ _ => unspec
   | .dict _ => unspec                      -- `{}.p = 1` succeeds in gpython (AttributeError in Python): C16 territory
   | _ => raise "AttributeError"
 
-def pyCall (f : Val) (args : List Val) : CM Val :=
-  match f, args with
-  | .fn "ev", [.int i, v] =>
-      M.bind (logEv (.int i)) fun _ => fun w => if w.bad == i.toNat then .err "ValueError" w else .ok v w
-  | .fn "ev", _ => unspec
-  | .fn n, args => M.bind (logEv (.tuple [.str n, .tuple args])) fun _ => ok (.tuple [.str n, .tuple args])
-  | .lam, _ => unspec | .code, _ => unspec
-  | _, _ => raise "TypeError"
+/-- Python's binding of call arguments to the parameters of a function (language reference
+6.3.4): positional arguments, surplus into `*vararg`, keywords by name, surplus into
+`**kwarg`, then defaults; every mismatch is a TypeError.  Yields the function's locals. -/
+def bindArgs (sg : Sig) (ds : List Val) (kds : List (String × Val)) (args : List Val)
+    (kwargs : List (String × Val)) : CM (List (String × Val)) := fun w =>
+  let npos := sg.pos.length
+  let extra := args.drop npos
+  if !extra.isEmpty && sg.vararg.isNone then .err "TypeError" w else
+  let env0 : List (String × Val) := sg.pos.zip args
+  -- keywords
+  let step (acc : Option (List (String × Val) × List (String × Val))) (kv : String × Val) :=
+    match acc with
+    | none => none
+    | some (env, kwd) =>
+      if sg.pos.contains kv.1 || sg.kwonly.contains kv.1 then
+        if (env.lookup kv.1).isSome then none else some (env ++ [kv], kwd)
+      else if sg.kwarg.isSome then some (env, insertSorted kv.1 kv.2 kwd)
+      else none
+  match kwargs.foldl step (some (env0, [])) with
+  | none => .err "TypeError" w
+  | some (env, kwd) =>
+    let nd := ds.length
+    -- positional parameters without a value take their default
+    let fill (acc : Option (List (String × Val))) (ip : Nat × String) :=
+      match acc with
+      | none => none
+      | some env =>
+        if (env.lookup ip.2).isSome then some env
+        else if ip.1 + nd ≥ npos then
+          match ds[ip.1 + nd - npos]? with
+          | some v => some (env ++ [(ip.2, v)])
+          | none => none
+        else none
+    match ((List.range npos).zip sg.pos).foldl fill (some env) with
+    | none => .err "TypeError" w
+    | some env =>
+      let fillK (acc : Option (List (String × Val))) (n : String) :=
+        match acc with
+        | none => none
+        | some env =>
+          if (env.lookup n).isSome then some env
+          else match kds.lookup n with
+            | some v => some (env ++ [(n, v)])
+            | none => none
+      match sg.kwonly.foldl fillK (some env) with
+      | none => .err "TypeError" w
+      | some env =>
+        let env := match sg.vararg with | some n => env ++ [(n, .tuple extra)] | none => env
+        match sg.kwarg with
+        | some n =>
+            let id := w.heap.length
+            .ok (env ++ [(n, .dict id)]) { w with heap := kwd :: w.heap }
+        | none => .ok env w
+
+/-- the items of the `*` argument -/
+def starItems : Option Val → CM (List Val)
+  | none => ok []
+  | some (.tuple vs) => ok vs
+  | some (.list vs) => ok vs
+  | some (.str s) => ok (s.toList.map fun c => .str (String.singleton c))
+  | some (.dict _) => unspec | some .setv => unspec | some (.cont _) => unspec | some (.obj _) => unspec
+  | some _ => raise "TypeError"
+
+/-- the items of the `**` argument -/
+def dstarItems : Option Val → CM (List (String × Val))
+  | none => ok []
+  | some (.dict id) => fun w =>
+      let d := w.dictGet id
+      if d.any (fun kv => kv.1.startsWith "#") then .err "TypeError" w else .ok d w
+  | some .setv => unspec | some (.obj _) => unspec
+  | some _ => raise "TypeError"
+
+def kwName : Val × Val → String × Val
+  | (.str s, v) => (s, v)
+  | (_, v) => ("?", v)
+
+def hasDup : List (String × Val) → Bool
+  | [] => false
+  | (k, _) :: r => (r.lookup k).isSome || hasDup r
+
+/-- how a function object created by `lambda` / `def` is run: supplied by `mkCPd` (reference:
+`evalE` on the body; model: the model VM on the body's code object) -/
+abbrev LamRunner := String → Sig → Expr → List (String × Val) → CM Val
+
+/-- every call: merge `*` / `**` into the arguments (TypeError on a non-iterable, a
+non-mapping, a repeated keyword), then the callee's behaviour -/
+def pyCallEx (runLam : LamRunner) (f : Val) (args : List Val) (kws : List (Val × Val))
+    (star dstar : Option Val) : CM Val :=
+  M.bind (dstarItems dstar) fun dk =>
+  M.bind (starItems star) fun sa =>
+  let args := args ++ sa
+  let kwargs := kws.map kwName ++ dk
+  if hasDup kwargs then raise "TypeError" else
+  match f with
+  | .fn "ev" =>
+      M.bind (bindArgs { pos := ["i", "v"] } [] [] args kwargs) fun env =>
+      match env.lookup "i", env.lookup "v" with
+      | some (.int i), some v =>
+          M.bind (logEv (.int i)) fun _ => fun w => if w.bad == i.toNat then .err "ValueError" w else .ok v w
+      | _, _ => unspec
+  | .fn "h" =>
+      -- def h(*a, **k): log.append(('h', a, k)); return ('h', a, k)
+      M.bind (bindArgs { vararg := some "a", kwarg := some "k" } [] [] args kwargs) fun env =>
+      match env.lookup "a", env.lookup "k" with
+      | some a, some k =>
+          let r := Val.tuple [.str "h", a, k]
+          M.bind (logEv r) fun _ => ok r
+      | _, _ => unspec
+  | .fn n =>
+      -- def f(*a): log.append(('f', a)); return ('f', a)
+      if !kwargs.isEmpty then raise "TypeError" else
+      M.bind (logEv (.tuple [.str n, .tuple args])) fun _ => ok (.tuple [.str n, .tuple args])
+  | .lam name sg ds kds body =>
+      M.bind (bindArgs sg ds kds args kwargs) fun env => runLam name sg body env
+  | .code _ _ _ => unspec
+  | _ => raise "TypeError"
 
 def hashable : Val → Bool
   | .int _ | .str _ | .none => true
@@ -294,13 +462,25 @@ def pyUnpack (n : Nat) (v : Val) : CM (List Val) :=
   | .dict _ => unspec | .setv => unspec | .cont _ => unspec
   | _ => raise "TypeError"
 
+/-- `before, *middle, after = v` -/
+def pyUnpackEx (b a : Nat) (v : Val) : CM (List Val) :=
+  let chk (vs : List Val) : CM (List Val) :=
+    if vs.length < b + a then raise "ValueError"
+    else ok (vs.take b ++ [Val.list ((vs.drop b).take (vs.length - b - a))] ++ vs.drop (vs.length - a))
+  match v with
+  | .tuple vs => chk vs
+  | .list vs => chk vs
+  | .str s => chk (s.toList.map fun c => .str (String.singleton c))
+  | .dict _ => unspec | .setv => unspec | .cont _ => unspec
+  | _ => raise "TypeError"
+
 def constV : Const → Val
   | .int i => .int i | .str s => .str s | .none => .none | .true => .bool true | .false => .bool false
 
 /-- `strict = true`: the dict primitive of the implementation (py.StringDict: a non-str key
 raises KeyError – known finding C01-K01); `strict = false`: Python's dict (int keys are kept,
 encoded as "#<n>" in the association list) -/
-def mkCP (strict : Bool) : Prims Val String CW where
+def mkCPwith (strict : Bool) (runLam : LamRunner) : Prims Val String CW where
   const := constV
   loadName n := fun w => match w.vars.lookup n with
     | some v => .ok v w | none => .err "NameError" w
@@ -314,11 +494,12 @@ def mkCP (strict : Bool) : Prims Val String CW where
   setitem := pySetItem
   getattr := pyGetAttr
   setattr := pySetAttr
-  call := pyCall
+  call f args := pyCallEx runLam f args [] none none
   mkTuple vs := ok (.tuple vs)
   mkList vs := ok (.list vs)
   mkSet vs := if vs.all hashable then ok .setv else unspec
   mkSlice lo hi := ok (.slice lo hi)
+  mkSlice3 lo hi st := ok (.slice3 lo hi st)
   newDict := fun w => .ok (.dict w.heap.length) { w with heap := [] :: w.heap }
   dictSet d k v := match d, k with
     | .dict id, .str s => fun w => .ok () (w.dictPut id (insertSorted s v (w.dictGet id)))
@@ -326,19 +507,55 @@ def mkCP (strict : Bool) : Prims Val String CW where
         if strict then raise "KeyError"
         else fun w => .ok () (w.dictPut id (insertSorted ("#" ++ toString i) v (w.dictGet id)))
     | _, _ => unspec
-  codeObj _ := .code
-  mkFunction _ _ := ok .lam
+  codeObj name sg body := .code name sg body
+  mkFunction c _ ds kds := match c with
+    | .code name sg body => ok (.lam name sg ds (kds.map kwName) body)
+    | _ => unspec
   unpack := pyUnpack
+  unpackEx := pyUnpackEx
+  callEx := pyCallEx runLam
+  delName n := fun w => match w.vars.lookup n with
+    | some _ => .ok () { w with vars := w.vars.filter (·.1 != n) }
+    | none => .err "NameError" w
+  delitem := pyDelItem
+  delattr := pyDelAttr
+  loadFast n := fun w => match w.frames with
+    | fr :: _ => (match fr.lookup n with | some v => .ok v w | none => .err "UnboundLocalError" w)
+    | [] => .err "UNSPEC" w
+  loadGlobal n := fun w => match w.vars.lookup n with
+    | some v => .ok v w | none => .err "NameError" w
 
-/-- model side: the implementation's primitives -/
-def CP : Prims Val String CW := mkCP true
-/-- spec side: Python's primitives -/
-def CPspec : Prims Val String CW := mkCP false
+/-- run a function body in a new frame with the locals `env`; the frame is popped on return
+and on exception.  `viaVM = false` (reference): `evalE` of the body with names resolved as
+parameter / global; `viaVM = true` (model): the model VM on the function's code object. -/
+def runLamWith (viaVM : Bool) (P' : Prims Val String CW) : LamRunner := fun name sg body env w =>
+  let w1 := { w with frames := env :: w.frames }
+  let pop (w : CW) : CW := { w with frames := w.frames.tail }
+  if viaVM then
+    let code := compBody name sg body
+    match run P' code (4 * code.length + 16) 0 [] w1 with
+    | .ret v w2 => .ok v (pop w2)
+    | .exc x w2 => .err x (pop w2)
+    | _ => .err "MODEL-FAULT" (pop w1)
+  else
+    match evalE (P'.inFunction sg.names) body w1 with
+    | .ok v w2 => .ok v (pop w2)
+    | .err x w2 => .err x (pop w2)
+
+/-- primitives with function calls nested at most `d` deep (deeper: UNSPEC) -/
+def mkCPd (strict viaVM : Bool) : Nat → Prims Val String CW
+  | 0 => mkCPwith strict (fun _ _ _ _ => unspec)
+  | d + 1 => mkCPwith strict (runLamWith viaVM (mkCPd strict viaVM d))
+
+/-- model side: the implementation's primitives; function bodies run on the model VM -/
+def CP : Prims Val String CW := mkCPd true true 5
+/-- spec side: Python's primitives; function bodies by the reference semantics -/
+def CPspec : Prims Val String CW := mkCPd false false 5
 
 /-- the namespace the harness prelude sets up -/
 def initW (bad : Nat) : CW :=
   { bad := bad,
-    vars := [("ev", .fn "ev"), ("f", .fn "f"), ("g", .fn "g"),
+    vars := [("ev", .fn "ev"), ("f", .fn "f"), ("g", .fn "g"), ("h", .fn "h"),
              ("c1", .cont 1), ("c2", .cont 2), ("o1", .obj 1), ("o2", .obj 2),
              ("x", .int 5), ("y", .int 7), ("z", .str "ab")] }
 
